@@ -382,6 +382,10 @@ func classify(o observation, p *pair) string {
 // kind: none | crash | fault | fault2 | unchanged | disabled | member | fmember
 func (h *harness) check(p *pair, desc, dir string, r childResult, modelScen, kind string) {
 	c := h.c
+	if r.timeout { // the machine is overloaded: no verdict from this child (counted, not a property failure)
+		c.Count("harness-child-timeout")
+		return
+	}
 	o := h.observe(dir, p)
 	replay := p.name + " " + desc
 	point := pointOf(desc)
@@ -765,6 +769,9 @@ func (h *harness) straceSweep(p *pair, whole bool) {
 		return
 	}
 	tp, ok := h.traceRef(p)
+	for try := 0; !ok && try < 3; try++ {
+		tp, ok = h.traceRef(p)
+	}
 	if !ok {
 		h.c.Fail("strace-reference-run-failed", p.name+" strace-ref", "no SAVING marker / child did not finish under strace")
 		return
